@@ -340,12 +340,12 @@ func (Engine) Shrink(sci interface{}) []interface{} {
 
 func (Engine) Describe() harness.EngineInfo {
 	return harness.EngineInfo{
-		Rule: "scenario = 1-5 tasks on ONE context, each a script of RunCode / ModuleInit (Code, CodeSrc, registered Go module with close callback) / ResolveAndCompile / RunFile / Close / Done-wait, bodies with mark_start, hold(k), nested import|exec|raise, mark_end; scheduler policy (random p, PCT d<=4, quantum, serial) and map order drawn per run; preemption before every statement of package stdlib, every simsync operation, every VM instruction. distinct = distinct sequences of (task, harness event) i.e. distinct interleavings at event granularity; non-trivial = at least one Close call overlaps (invoke..return) an execution request or a request starts after a Close returned",
+		Rule: "scenario = 1-5 tasks on ONE context, each a script of RunCode / ModuleInit (Code, CodeSrc, registered Go module with close callback) / ResolveAndCompile / RunFile / py.Import issued from Go / py.Call of a pre-defined Python function that imports, exec()s or eval()s source or a precompiled code object or calls __import__ / Close / Done-wait, bodies with mark_start, hold(k), nested import|exec|raise, mark_end; scheduler policy (random p, PCT d<=4, quantum, serial) and map order drawn per run; preemption before every statement of package stdlib, every simsync operation, every VM instruction. distinct = distinct sequences of (task, harness event) i.e. distinct interleavings at event granularity; non-trivial = at least one Close call overlaps (invoke..return) an execution request or a request starts after a Close returned",
 		Real: []string{"stdlib.context (pushBusy/popBusy/Close/Done/RunCode/ModuleInit/ResolveAndCompile)", "py.ModuleStore", "py.Import machinery", "parser/symtable/compile", "vm"},
 		Stubbed: []string{"sync.{Once,WaitGroup,Mutex,RWMutex,Cond} -> simsync (same semantics, blocking visible to the scheduler)",
 			"sync/atomic -> simatomic", "close/recv/send on channels -> simrt.Chan*", "os.Stat/ReadFile/Open/Getwd in the import resolver -> simfs (in-memory tree)", "Go map iteration order -> seeded"},
 		Assumptions: []string{"Close is never called from inside an execution of the same context (self-wait); the property's 'any goroutine' is read as any other goroutine",
-			"requests that overlap a Close may either run or be rejected; only requests invoked after a Close returned must fail",
+			"requests that overlap a Close may either run or be rejected; only requests invoked after a Close returned must fail", "a direct py.Call of a Python function is not itself an execution request (the unchanged tree does not gate it); what the function does through import / exec / eval is, and importing a module that is already loaded executes nothing",
 			"the Go memory model's non-sequentially-consistent behaviours of racy code are not explored: the simulator interleaves at statement/sync-operation granularity under sequential consistency"},
 		TimeUnit: "scheduler steps (preemption points passed)",
 	}
